@@ -670,6 +670,9 @@ impl Mon {
             let informative = ra.active && dt > 0;
             if informative {
                 self.r.count(&format!("C06.informative_accruals/{}", info.kind.name()));
+                if ra.base.is_zero() {
+                    self.r.count("C06.informative_accruals_at_zero_base_rate");
+                }
                 let dtc = if dt < 60 { 0 } else if dt < 86400 { 1 } else if dt < 86400 * 30 { 2 } else { 3 };
                 let uc = (to_f64(&ra.util) * 10.0) as i64;
                 self.r.distinct(&(info.kind.name(), dtc, uc.min(11)));
